@@ -25,7 +25,14 @@
 (*   Val  = [v: Int, p: Str]   p = "" literal v;  p # ""  written as the    *)
 (*                             Jinja expression {{ p | default(v) }}        *)
 (*   SVal = [v: Str, p: Str]   same for strings                             *)
-(*   T    = [name: SVal, opk: "str"|"inl", op, type: Str, bulk: Val,        *)
+(*   X    = [p: Str, d: Int, comma: BOOLEAN]  use of the helper macro           *)
+(*          {{ rally.exists_set_param("my-setting", p, default_value=d,     *)
+(*          comma=..) }} in an operation (p = "" not used, d = Abs no       *)
+(*          default_value); comma=TRUE: directly in the operation object,   *)
+(*          comma=FALSE: as the only entry of the operation's "body" object *)
+(*          a supplied value v of such a parameter may be falsy:            *)
+(*          0, -2 = false, -3 = "" (-4 = true)                              *)
+(*   T    = [name: SVal, opk: "str"|"inl", op, type: Str, bulk: Val, xp: X, *)
 (*           clients, wi, it, wtp, tp, ru, tput: Val, unit: Str,            *)
 (*           tags: Seq(Str)]                                                *)
 (*          opk="str": "operation": "<op>" (name of an entry of the         *)
@@ -36,7 +43,7 @@
 (*           tasks: Seq(T)]    par=FALSE: a plain task (tasks = <<t>>)      *)
 (*   Chal = [name: Str, dflt: "abs"|"true"|"false", sched: Seq(El)]         *)
 (*   F    = [form: "schedule"|"challenge"|"challenges", chals: Seq(Chal),   *)
-(*           ops: Seq([name, type: Str, bulk: Val]),                        *)
+(*           ops: Seq([name, type: Str, bulk: Val, xp: X]),                 *)
 (*           corpora: Seq([name, tidx, tds, iaamd: Str,                     *)
 (*                    docs: Seq([base, ext: Str, count: Val,                *)
 (*                               tidx, tds, iaamd: Str])]),                 *)
@@ -77,6 +84,7 @@ CONSTANTS
     ChalOps, CNames, TNames, TaskOps, OpDefs, KNames, DocFiles, INames, SNames,
     Alpha,            \* record: field name -> set of literal values
     ParamSites,       \* fields that may be written as {{ p | default(v) }}
+    XUses, XParams, XVals,   \* macro uses for inline operations, macro parameters and the values supplied for them
     NumParams, StrParams, SupVals, ReservedCand, Units, TagSeqs, PartKinds, DefectKinds,
     MaxOps, MaxChals, MaxEls, MaxParTasks, MaxCorpora, MaxDocs, MaxSup,
     MaxSize,          \* bound on the number of builder steps (things written beyond the seed)
@@ -91,6 +99,7 @@ L(n) == [v |-> n, p |-> ""]
 P(q, d) == [v |-> d, p |-> q]
 NoVal == L(Abs)
 NoStr == [v |-> "", p |-> ""]
+NoX == [p |-> "", d |-> Abs, comma |-> TRUE]
 NoDefect == [k |-> "none", c |-> 0, e |-> 0, t |-> 0]
 Reserved == {"now", "glob", "build_flavor", "serverless_operator"}
 
@@ -115,7 +124,14 @@ NonAdminTypes == {"index-stats", "node-stats", "search", "bulk", "raw-request", 
 ResN(F, x) == IF x.p # "" /\ \E s \in F.supN : s.p = x.p THEN (CHOOSE s \in F.supN : s.p = x.p).v ELSE x.v
 ResS(F, x) == IF x.p # "" /\ \E s \in F.supS : s.p = x.p THEN (CHOOSE s \in F.supS : s.p = x.p).v ELSE x.v
 
+(* rally.exists_set_param(setting, p, default_value=d) (docs/advanced.rst): the setting is emitted with the user's value  *)
+(* whenever the parameter is defined - whatever the value, 0 / false / "" included -, with the default when it is not  *)
+(* defined and a default exists, and not at all otherwise (Abs).                                                        *)
+XVal(F, x) == IF x.p = "" THEN Abs
+              ELSE IF \E s \in F.supN : s.p = x.p THEN (CHOOSE s \in F.supN : s.p = x.p).v
+              ELSE x.d
 RTask(F, t) == [name |-> ResS(F, t.name), opk |-> t.opk, op |-> t.op, type |-> t.type, bulk |-> ResN(F, t.bulk),
+                xv |-> XVal(F, t.xp), xc |-> t.xp.comma,
                 clients |-> ResN(F, t.clients), wi |-> ResN(F, t.wi), it |-> ResN(F, t.it), wtp |-> ResN(F, t.wtp),
                 tp |-> ResN(F, t.tp), ru |-> ResN(F, t.ru), tput |-> ResN(F, t.tput), unit |-> t.unit, tags |-> t.tags]
 REl(F, el) == [par |-> el.par, cap |-> ResN(F, el.cap), wi |-> ResN(F, el.wi), it |-> ResN(F, el.it),
@@ -124,7 +140,8 @@ REl(F, el) == [par |-> el.par, cap |-> ResN(F, el.cap), wi |-> ResN(F, el.wi), i
 RChal(F, ch) == [name |-> ch.name, dflt |-> ch.dflt, sched |-> [e \in 1..Len(ch.sched) |-> REl(F, ch.sched[e])]]
 Resolve(F) == [form |-> F.form,
                chals |-> [c \in 1..Len(F.chals) |-> RChal(F, F.chals[c])],
-               ops |-> [i \in 1..Len(F.ops) |-> [name |-> F.ops[i].name, type |-> F.ops[i].type, bulk |-> ResN(F, F.ops[i].bulk)]],
+               ops |-> [i \in 1..Len(F.ops) |-> [name |-> F.ops[i].name, type |-> F.ops[i].type, bulk |-> ResN(F, F.ops[i].bulk),
+                                                 xv |-> XVal(F, F.ops[i].xp), xc |-> F.ops[i].xp.comma]],
                corpora |-> [k \in 1..Len(F.corpora) |->
                               [name |-> F.corpora[k].name, tidx |-> F.corpora[k].tidx, tds |-> F.corpora[k].tds,
                                iaamd |-> F.corpora[k].iaamd,
@@ -135,17 +152,17 @@ Resolve(F) == [form |-> F.form,
                indices |-> F.indices, streams |-> F.streams, defect |-> F.defect]
 
 (* Track parameters referenced anywhere in the file, included parts too.   *)
-TaskParams(t) == {t[k].p : k \in TaskNumFields} \cup {t.name.p}
+TaskParams(t) == {t[k].p : k \in TaskNumFields} \cup {t.name.p, t.xp.p}
 ElParams(el) == {el[k].p : k \in ElNumFields} \cup UNION {TaskParams(el.tasks[i]) : i \in 1..Len(el.tasks)}
 ChalParams(ch) == UNION {ElParams(ch.sched[e]) : e \in 1..Len(ch.sched)}
 Used(F) == (UNION {ChalParams(F.chals[c]) : c \in 1..Len(F.chals)}
-            \cup {F.ops[i].bulk.p : i \in 1..Len(F.ops)}
+            \cup {F.ops[i].bulk.p : i \in 1..Len(F.ops)} \cup {F.ops[i].xp.p : i \in 1..Len(F.ops)}
             \cup UNION {{F.corpora[k].docs[d].count.p : d \in 1..Len(F.corpora[k].docs)} : k \in 1..Len(F.corpora)}
             \cup F.refs) \ {""}
 \* ... and those outside of included parts
 UsedOutsideParts(F) ==
     ((IF "chals" \in F.parts THEN {} ELSE UNION {ChalParams(F.chals[c]) : c \in 1..Len(F.chals)})
-     \cup (IF "ops" \in F.parts THEN {} ELSE {F.ops[i].bulk.p : i \in 1..Len(F.ops)})
+     \cup (IF "ops" \in F.parts THEN {} ELSE {F.ops[i].bulk.p : i \in 1..Len(F.ops)} \cup {F.ops[i].xp.p : i \in 1..Len(F.ops)})
      \cup (IF "corpora" \in F.parts THEN {}
            ELSE UNION {{F.corpora[k].docs[d].count.p : d \in 1..Len(F.corpora[k].docs)} : k \in 1..Len(F.corpora)})
      \cup F.refs) \ {""}
@@ -159,8 +176,8 @@ Supplied(F) == {s.p : s \in F.supN} \cup {s.p : s \in F.supS}
 OpOf(R, t) == IF t.opk = "str"
               THEN IF \E i \in 1..Len(R.ops) : R.ops[i].name = t.op
                    THEN R.ops[CHOOSE i \in 1..Len(R.ops) : R.ops[i].name = t.op]
-                   ELSE [name |-> t.op, type |-> t.op, bulk |-> Abs]
-              ELSE [name |-> IF t.op = "" THEN t.type ELSE t.op, type |-> t.type, bulk |-> t.bulk]
+                   ELSE [name |-> t.op, type |-> t.op, bulk |-> Abs, xv |-> Abs, xc |-> TRUE]
+              ELSE [name |-> IF t.op = "" THEN t.type ELSE t.op, type |-> t.type, bulk |-> t.bulk, xv |-> t.xv, xc |-> t.xc]
 TName(R, t) == IF t.name = "" THEN OpOf(R, t).name ELSE t.name
 Eff(own, inherited) == IF own # Abs THEN own ELSE inherited
 IsSet(x) == x # Abs
@@ -256,7 +273,8 @@ Viol(F) == ViolR(F, Resolve(F))
 (* of the loaded objects that the transcription also predicts (L2 only).    *)
 ExpTask(R, el, t) ==
     LET o == OpOf(R, t)  x == Timing(el, t)  n == TName(R, t) IN
-    [name |-> n, op |-> [name |-> o.name, type |-> o.type, bulk |-> o.bulk],
+    [name |-> n, op |-> [name |-> o.name, type |-> o.type, bulk |-> o.bulk,
+                         xs |-> IF o.xc THEN o.xv ELSE Abs, xb |-> IF o.xc THEN Abs ELSE o.xv],
      clients |-> IF IsSet(t.clients) THEN t.clients ELSE 1,
      wi |-> x.wi, it |-> x.it, wtp |-> x.wtp, tp |-> x.tp, ru |-> x.ru,
      cp |-> el.par /\ el.cb # "" /\ el.cb = n, acp |-> el.par /\ el.cb = "any",
@@ -398,7 +416,7 @@ ModelSane == LET R == Resolve(f)
 
 -----------------------------------------------------------------------------
 (* BUILDER                                                                 *)
-BareTask(ref) == [name |-> NoStr, opk |-> ref.opk, op |-> ref.op, type |-> ref.type, bulk |-> NoVal, clients |-> NoVal,
+BareTask(ref) == [name |-> NoStr, opk |-> ref.opk, op |-> ref.op, type |-> ref.type, bulk |-> NoVal, xp |-> NoX, clients |-> NoVal,
                   wi |-> NoVal, it |-> NoVal, wtp |-> NoVal, tp |-> NoVal, ru |-> NoVal, tput |-> NoVal, unit |-> "",
                   tags |-> <<>>]
 PlainEl(t) == [par |-> FALSE, cap |-> NoVal, wi |-> NoVal, it |-> NoVal, wtp |-> NoVal, tp |-> NoVal, ru |-> NoVal,
@@ -413,7 +431,7 @@ Vals(field) == {L(n) : n \in Alpha[field]}
                \cup (IF field \in ParamSites THEN {P(q, n) : q \in NumParams, n \in Alpha[field] \ {0}} ELSE {})
 
 \* number of optional attributes written in the file (bounds the exhaustive exploration)
-SetCountT(t) == Cardinality({k \in TaskNumFields : t[k] # NoVal}) + (IF t.name # NoStr THEN 1 ELSE 0)
+SetCountT(t) == Cardinality({k \in TaskNumFields : t[k] # NoVal}) + (IF t.name # NoStr THEN 1 ELSE 0) + (IF t.xp # NoX THEN 1 ELSE 0)
                 + (IF t.tags # <<>> THEN 1 ELSE 0)
 RECURSIVE SumT(_, _)
 SumT(ts, n) == IF n = 0 THEN 0 ELSE SumT(ts, n - 1) + SetCountT(ts[n])
@@ -469,6 +487,7 @@ CandSetTaskField ==
               THEN {[f EXCEPT !.chals[c].sched[e].tasks[i].name = [v |-> n, p |-> ""]] : n \in TNames}
                    \cup {[f EXCEPT !.chals[c].sched[e].tasks[i].name = [v |-> n, p |-> q]] : n \in TNames, q \in StrParams}
               ELSE {})
+        \cup (IF t.opk = "inl" /\ t.xp = NoX THEN {[f EXCEPT !.chals[c].sched[e].tasks[i].xp = x] : x \in XUses} ELSE {})
         \cup (IF t.tags = <<>> THEN {[f EXCEPT !.chals[c].sched[e].tasks[i].tags = g] : g \in TagSeqs} ELSE {})
         \cup (IF t.tput # NoVal /\ t.unit = "" THEN {[f EXCEPT !.chals[c].sched[e].tasks[i].unit = u] : u \in Units} ELSE {})
       : i \in TaskIdx(c, e)} : e \in ElIdx(c)} : c \in ChalIdx}
@@ -503,6 +522,8 @@ CandSupplyParam ==
     IF Cardinality(f.supN) + Cardinality(f.supS) >= MaxSup THEN {}
     ELSE {[f EXCEPT !.supN = @ \cup {[p |-> q, v |-> x]}] : q \in NumParams \ Supplied(f), x \in SupVals}
          \cup {[f EXCEPT !.supN = @ \cup {[p |-> q, v |-> 1]}] : q \in ReservedCand \ Supplied(f)}
+         \* values (falsy ones included) for the parameters of exists_set_param uses
+         \cup {[f EXCEPT !.supN = @ \cup {[p |-> q, v |-> x]}] : q \in (XParams \cap Used(f)) \ Supplied(f), x \in XVals}
          \cup {[f EXCEPT !.supS = @ \cup {[p |-> q, v |-> x]}] : q \in StrParams \ Supplied(f), x \in TNames}
 CandUseReserved == {[f EXCEPT !.refs = @ \cup {q}] : q \in ReservedCand \ f.refs}
 CandSplitIntoPart ==
